@@ -13,7 +13,7 @@ def run(ctx):
                 "finder + abstract shares with faulty servers and dishonest encoders.  TRACE: seeded scenarios on the real "
                 "downloader (profile c46: tampering encoder in ~45% of uploads, shares shorter than their offset table, "
                 "damaged/deleted/substituted shares, raising/disconnecting/losing/late servers, 2-4 reads per scenario "
-                "sequentially, concurrently, after a failure and at quiescence, on one or two nodes); the scheduler "
+                "sequentially, concurrently, after a failure and at quiescence, on one or two nodes; in ~30% of the scenarios one reader goes away - its consumer calls stopProducing - while others wait); the scheduler "
                 "drains every call, fires every timer, finally fails lost calls, then logs Quiescent.  Non-trivial = any "
                 "damage, fault, late server, tampered upload or more than one read.")
     ctx.assumptions += fam.COMMON_ASSUMPTIONS
@@ -22,6 +22,11 @@ def run(ctx):
                  badsegs=2, invariants=NODE_INV)
     fam.mc_demo(ctx, "MC node layer, code rule (ClearOnFailure=FALSE)", ["C46_QuiescentResolved", "C46_NoOrphanRequest", "temporal"],
                 readers=2, numsegs=2, full=False, clear=False, ranges="R_any2", badsegs=2, invariants=NODE_INV)
+    # readers that go away while others wait (stopProducing -> _cancel_request)
+    fam.mc_holds(ctx, "MC node layer, readers may go away", readers=3 if not ctx.quick else 2, numsegs=2, full=False, clear=True, ranges="R_any2",
+                 badsegs=1, invariants=NODE_INV, stop="restart")
+    fam.mc_demo(ctx, "MC node layer, cancel forgets to start the next segment", ["C46_QuiescentResolved", "C46_NoOrphanRequest", "temporal"],
+                readers=2, numsegs=2, full=False, clear=True, ranges="R_any2", badsegs=0, invariants=NODE_INV, stop="norestart")
     if ctx.quick:
         fam.mc_holds(ctx, "MC full layer", readers=1, numsegs=2, ranges="R_all2", faulty=1, fmodes=("dyhb", "flaky"),
                      badsegs=1, maxout=2)
